@@ -212,11 +212,17 @@ def run(ctx):
         good = [e for e in bev if not e['err']]
         if good:
             ctx.sample({'builtin_event': {k: good[len(good) // 2][k] for k in ('cls', 'M', 'N', 'Gd', 'Gr', 'exact')}})
+    # ---- product-space block operators with a layer-A meaning (BlockOpSem / BlockOpMachine): the adjoint clauses
+    from ..extras import blockops
+    blockops.run_stage_c05(ctx)
     ctx.exhaustive = True
 
 
 def replay(body):
     d = body['detail']
+    if body.get('signature', {}).get('part') == 'blockops':
+        from ..extras import blockops
+        return blockops.replay(body)
     if d.get('stage') == 'builtin':
         hit = None
         for family, opts, fn in L.recipes('thorough'):
